@@ -169,6 +169,9 @@ def num(r):
     return r[0] // r[1] if r[1] == 1 else r[0] / r[1]
 
 
+REPEAT = True
+
+
 def execute(cmd, params, arrays):
     """run one command's execute() on concrete arrays -> ('ok', result) | (ErrorClassName, message)"""
     L = lib()
@@ -188,7 +191,18 @@ def execute(cmd, params, arrays):
     for name, v in params:
         kw[name] = conv_param(cls, name, v)
     try:
-        return "ok", inst.execute(**kw)
+        r = inst.execute(**kw)
+        if REPEAT:
+            # evaluating the same operator again on the same (finished) inputs gives the same result: an operator that
+            # works in place on an input's stored result answers differently the second time
+            np = L["__numpy__"]
+            r2 = cls("R2", [], None, 1).execute(**kw)
+            if isinstance(r, np.ndarray) and isinstance(r2, np.ndarray):
+                m1, m2 = np.ma.getmaskarray(r), np.ma.getmaskarray(r2)
+                if r.shape != r2.shape or not np.array_equal(m1, m2) or \
+                        not np.array_equal(np.ma.getdata(r)[~m1], np.ma.getdata(r2)[~m2], equal_nan=True):
+                    return "Harness.SecondEvaluationDiffers", ""
+        return "ok", r
     except BaseException as e:
         try:
             msg = str(e)[:200]
